@@ -42,7 +42,10 @@ RULE = ('documents = bundled YAML + generated workflow lists/workbooks/action li
         'when the item is found / a key is injected / the graph has a transition, join or requirement.')
 TRUSTED = [
     'totality ("never an internal error") and hang-freedom are NOT theorems: they are evaluated by the monitor on the '
-    'sampled mutation stream with a SIGALRM time limit; ReDoS / regex engine is not modelled',
+    'sampled mutation stream; hangs are decided on CPU time of the check process (limit = max(5 s, 200 x the CPU time '
+    'of validating the largest bundled definition, measured in the same process) and on CPU-time growth over size '
+    'doublings for 17 input families; the wall-clock watchdog (>= 300 s) is an infrastructure guard only (exit 2); '
+    'ReDoS / regex engine is not modelled',
     'PyYAML, jsonschema, python re, yaql, jinja2, sqlalchemy+sqlite are third-party and only exercised',
     'harness seam: jsonschema check_schema is memoised by schema content (stream `seam` compares with the un-memoised run)',
     'in-memory sqlite, one non-admin auth context, default configuration (validation_mode=enabled)',
@@ -53,11 +56,28 @@ TRUSTED = [
 ]
 ASSUMPTIONS = ['skip_validation / validation_mode=disabled is outside the property (the user opted out of validation)']
 
-LIMIT_Q = 3.0
+LIMIT_Q = 1.0        # factor of the calibrated CPU-time limit (harness/lang_env.calibrate)
 
 
 def env():
-    return E.setup()
+    st = E.setup()
+    if 'cpu_limit' not in st:
+        from vlib import core
+        E.calibrate(G.bundled(core.REPO))
+    return st
+
+
+def infra_guard(fn):
+    """the wall-clock watchdog is an infrastructure guard: exit 2, never a VIOLATION."""
+    def wrapped(ctx, *a):
+        try:
+            return fn(ctx, *a)
+        except E.WallTimeout:
+            from vlib import core
+            raise core.Infra('wall-clock watchdog (%.0f s) expired: machine overloaded or process blocked; '
+                             'hang verdicts are taken on CPU time only' % E._state.get('wall_guard', 0))
+    wrapped.__name__ = fn.__name__
+    return wrapped
 
 
 def text_hash(t):
@@ -77,7 +97,8 @@ def sig_of(entry, kind, det):
 
 def report_undeclared(ctx, entry, kind, det, text, origin):
     ctx.count('lang', 'outcome:%s:%s' % (entry, kind))
-    what = ('%s hangs (> %ss) on a definition text' % (entry, det['limit_s'])) if kind == 'hang' else \
+    what = ('%s does not finish within %s s of CPU time (limit calibrated as max(5 s, 200 x the largest bundled '
+            'definition)) on a definition text' % (entry, det['limit_s'])) if kind == 'hang' else \
         '%s raises %s at %s [%s] instead of a definition error: %s' % (entry, det['exc'], det['site'], det['line'], det['msg'])
     ctx.violation(what, {'kind': 'doc', 'entry': entry, 'text': text, 'origin': origin, 'detail': det},
                   sig_of(entry, kind, det))
@@ -752,6 +773,7 @@ def kind_of_dict(d):
     return 'wf'
 
 
+@infra_guard
 def correspond(ctx):
     st = env()
     rng = ctx.rng
@@ -774,7 +796,7 @@ def correspond(ctx):
         big = len(text) > 40000 and not ctx.thorough()
         if big:
             ctx.count('lang', 'bundled-big-parsers-only')
-        verdicts, acc = run_doc(ctx, st, text, origin, limit * 4, do_services=not big, do_stability=not big)
+        verdicts, acc = run_doc(ctx, st, text, origin, limit, do_services=not big, do_stability=not big)
         ctx.count('lang', 'origin:bundled')
         if acc and d is not None and len(text) < 20000:
             pool.append((origin, d))
@@ -783,6 +805,8 @@ def correspond(ctx):
         run_doc(ctx, st, text, 'corner:' + name, limit)
         ctx.count('lang', 'origin:corner')
     run_targeted(ctx, st, limit)
+    # ---- 2b. scaling probes ("never hangs", decided on CPU-time growth, not on a wall-clock limit)
+    run_probes(ctx, st)
     # ---- 3. generated valid definitions in all syntactic forms
     n_gen = ctx.n(120, 1500)
     gen_pool = []
@@ -841,7 +865,91 @@ def correspond(ctx):
     # ---- 7. /validate controllers
     api_validate(ctx, st, pool, rng, limit)
     # margin of the watchdog: slowest call that did finish, as a fraction of its time limit
-    ctx.cov['slowest_finished_call_fraction_of_limit'] = round(st.get('max_fraction_of_limit', 0.0), 3)
+    ctx.cov['slowest_finished_call_fraction_of_cpu_limit'] = round(st.get('max_fraction_of_limit', 0.0), 4)
+    ctx.cov['cpu_limit_s'] = round(st['cpu_limit'], 2)
+    ctx.cov['cpu_reference'] = {'definition': st['cpu_ref_name'], 'cpu_s': round(st['cpu_ref'], 4)}
+    ctx.cov['wall_guard_s'] = round(st['wall_guard'], 1)
+
+
+def _probe_cpu(st, text, repeat):
+    """CPU seconds (best of `repeat`) of the workflow-list parser on `text`; None when the CPU limit was hit."""
+    sp = st['sp']
+    best = None
+    for _ in range(repeat):
+        kind, det, _v = E.guarded(lambda: sp.get_workflow_list_spec_from_yaml(text, validate=True), LIMIT_Q)
+        if kind == 'hang':
+            return None, det
+        t = st['last_cpu']
+        best = t if best is None else min(best, t)
+    return best, None
+
+
+PROBE_START = 2048
+PROBE_MAX = 262144          # characters; a definition may have up to 1 MB
+PROBE_T_MIN = 0.15          # CPU seconds at which the measurements are well above timer resolution
+PROBE_RATIO = 3.4           # per doubling: linear = 2, n log n ~ 2.1, quadratic = 4 (3.85-4.15 measured)
+PROBE_FIXED = {'many-tasks': 65536}   # thorough only: a size where the quadratic graph checks dominate; one doubling
+
+
+def scaling_probe(ctx, st, name, make, start=None):
+    """Load-independent hang detection by *growth*: validation CPU time at sizes n, 2n, 4n (n = first size that
+    costs >= 0.15 s CPU).  Super-linear when both doublings multiply the CPU time by more than 3."""
+    n = start or PROBE_START
+    t1 = None
+    while n <= PROBE_MAX:
+        t, det = _probe_cpu(st, make(n), 1 if start else 2)
+        if t is None:
+            return {'family': name, 'verdict': 'cpu-limit', 'n': n, 'detail': det}
+        if t >= PROBE_T_MIN:
+            t1 = t
+            break
+        n *= 2
+    if t1 is None:
+        return {'family': name, 'verdict': 'fast', 'n': n // 2, 't': round(t, 4)}
+    if start:
+        # expensive family measured at one fixed doubling (n -> 2n), judged on that ratio alone
+        sp = st['sp']
+        text2 = make(2 * n)
+        (site, line), t2 = E.hot_site(lambda: sp.get_workflow_list_spec_from_yaml(text2, validate=True), max(0.01, t1 / 10))
+        r1 = t2 / t1
+        return {'family': name, 'verdict': 'superlinear' if r1 > PROBE_RATIO else 'linear', 'n': n,
+                't': [round(t1, 3), round(t2, 3)], 'ratios': [round(r1, 2)], 'site': site, 'line': line}
+    t2, det = _probe_cpu(st, make(2 * n), 1)
+    if t2 is None:
+        return {'family': name, 'verdict': 'cpu-limit', 'n': 2 * n, 'detail': det}
+    r1 = t2 / t1
+    if r1 <= PROBE_RATIO:
+        return {'family': name, 'verdict': 'linear', 'n': n, 't': [round(t1, 3), round(t2, 3)], 'ratios': [round(r1, 2)]}
+    sp = st['sp']
+    text4 = make(4 * n)
+    (site, line), t4 = E.hot_site(lambda: sp.get_workflow_list_spec_from_yaml(text4, validate=True), max(0.005, t2 / 10))
+    r2 = t4 / t2
+    return {'family': name, 'verdict': 'superlinear' if r2 > PROBE_RATIO else 'linear', 'n': n,
+            't': [round(t1, 3), round(t2, 3), round(t4, 3)], 'ratios': [round(r1, 2), round(r2, 2)],
+            'site': site, 'line': line}
+
+
+def run_probes(ctx, st, only=None):
+    for name, make in G.PROBE_FAMILIES:
+        if only and name != only:
+            continue
+        if name in PROBE_FIXED and not (ctx.thorough() or only):
+            continue          # ~45 s of CPU: thorough tier / replay only
+        res = scaling_probe(ctx, st, name, make, PROBE_FIXED.get(name))
+        ctx.evaluated('scaling', name, nontrivial=res['verdict'] in ('linear', 'superlinear'))
+        ctx.count('scaling', '%s:%s' % (name, res['verdict']))
+        ctx.cov.setdefault('scaling_probes', []).append({k: v for k, v in res.items() if k != 'detail'})
+        if res['verdict'] == 'superlinear':
+            ctx.violation('validation time grows super-linearly with the size of the definition (family %s: CPU %s s at '
+                          '%s characters, ratios %s per doubling; a definition may have 1 MB), hot spot %s [%s]' % (
+                              name, res['t'], [res['n'] << i for i in range(len(res['t']))], res['ratios'], res['site'], res['line']),
+                          {'kind': 'probe', 'family': name, 'result': res},
+                          {'kind': 'superlinear-time', 'family': name})
+        elif res['verdict'] == 'cpu-limit':
+            det = res['detail']
+            ctx.violation('validation of a %d-character definition (family %s) does not finish within %s s of CPU time' % (
+                res['n'], name, det['limit_s']), {'kind': 'probe', 'family': name, 'result': {'n': res['n']}},
+                {'kind': 'hang', 'site': det['site'], 'line': det['line']})
 
 
 def seam(ctx, st, pool, rng):
@@ -861,7 +969,7 @@ def seam(ctx, st, pool, rng):
             try:
                 out = []
                 for entry, fname in PARSERS:
-                    kind, det, _ = E.guarded(lambda: getattr(sp, fname)(text, validate=True), 60)
+                    kind, det, _ = E.guarded(lambda: getattr(sp, fname)(text, validate=True), 4)
                     out.append((kind, (det or {}).get('cls') or (det or {}).get('exc')))
                 res.append(out)
             finally:
@@ -929,7 +1037,7 @@ def _api_validate(ctx, st, pool, rng, limit, app):
             kind, det, resp = E.guarded(call, limit)
             ctx.evaluated('api', [url, text_hash(text)], nontrivial=True)
             if kind == 'hang':
-                ctx.violation('%s hangs (> %ss)' % (url, det['limit_s']), {'kind': 'api', 'url': url, 'text': text},
+                ctx.violation('%s does not finish within %s s of CPU time' % (url, det['limit_s']), {'kind': 'api', 'url': url, 'text': text},
                               sig_of(url, kind, det))
                 continue
             if kind != 'ok':
@@ -970,6 +1078,7 @@ def raise_infra(msg):
 
 
 # ---------------------------------------------------------------------------- search / replay
+@infra_guard
 def search(ctx):
     """A proof obligation or a model correspondence broke: look for a concrete failing input on the real code by
     widening the monitored population (more generated definitions and mutants, the defect-I witness family)."""
@@ -1005,14 +1114,18 @@ def search(ctx):
         ctx.tier = old
 
 
+@infra_guard
 def replay(ctx, rep):
     st = env()
     r = rep['replay']
     if r.get('kind') == 'doc':
-        verdicts, acc = run_doc(ctx, st, r['text'], r.get('origin', 'replay'), LIMIT_Q * 4)
+        verdicts, acc = run_doc(ctx, st, r['text'], r.get('origin', 'replay'), LIMIT_Q)
         print('replay: verdicts %s accepted by %s' % (verdicts, [e for e, _ in acc]))
     elif r.get('kind') == 'api':
         api_replay(ctx, st, r)
+    elif r.get('kind') == 'probe':
+        run_probes(ctx, st, only=r['family'])
+        print('replay: scaling probe %s' % ctx.cov.get('scaling_probes'))
     else:
         from harness import lang_model as M
         M.replay_model(ctx, st, r)
